@@ -179,5 +179,37 @@ def run(ctx):
                 held = L.flow[fn.path].held_classes_at_call(b)
                 ctx.ob("R13.4", "producer|%s|%d" % (fn.path, n), "R" not in held, "%s:%d" % (t["s"][6], t["s"][3]), "Sender::send with %s held" % sorted(held))
         ctx.floor("R13.4", "Sender::send call sites", n, 4)
+
+        # ------------------------------------------------------------ R13.5
+        # exactly once: a producer never gives up on delivery because of contention. In everything reachable from the functions that
+        # contain a Sender::send (the delivery functions) and from their callers up to the send entry points, platform locks
+        # (every class but the value lock V, where try_lock is the recursion guard of to_string) are taken with lock(), never try_lock,
+        # and the channel is written with send(), never try_send / send_timeout.
+        cg = F.callgraph
+        entry = {p for p in cg.local if any(cg.body_of.get(p, p).endswith(s) for s in (
+            "FsmExecutor::send_to_session", "FsmExecutor::get_session_sender", "EventIOProcessor>::send", "ScxmlEventIOProcessor::send_to_session",
+            "BlockingQueue::<T>::enqueue", "datamodel::Datamodel::send"))}
+        ctx.floor("R13.5", "delivery entry functions", len({cg.body_of.get(p, p) for p in entry}), 5)
+        region = {cg.body_of.get(p, p) for p in cg.reachable(entry)}
+        bad = []
+        n_lock = 0
+        for f in sorted(region):
+            for c, m, bi, s, _h in L.direct.get(f, ()):
+                if c == "V":
+                    continue
+                n_lock += 1
+                if m != "block":
+                    bad.append("%s takes %s with try_lock at %s:%d" % (f, c, s[6], s[3]))
+            fn2 = F.fns.get(f)
+            if fn2 is not None:
+                for b, t in fn2.mir_calls():
+                    if any(x in t["f"] for x in ("mpsc::Sender::<T>::try_send", "mpsc::SyncSender::<T>::try_send", "send_timeout")):
+                        bad.append("%s calls %s at %s:%d" % (f, t["f"], t["s"][6], t["s"][3]))
+        ctx.floor("R13.5", "platform lock acquisitions on the delivery path", n_lock, 3)
+        ctx.ob("R13.5", "delivery path waits for its locks and its channel", not bad, "", "; ".join(bad) or
+               "%d functions, %d platform lock acquisitions, all blocking" % (len(region), n_lock))
+    ctx.rule("R13.5", "a producer never drops an event because of contention: on the delivery path (FsmExecutor::send_to_session / "
+                      "get_session_sender, the EventIOProcessor::send implementations, BlockingQueue::enqueue, Datamodel::send and all they "
+                      "reach) every platform lock is taken with lock() - never try_lock - and the channel is written with send()")
     ctx.rule("R13.4", "the consumer holds exactly the receiver lock while blocked in recv, and no producer needs that lock to send")
     ctx.guard("R13.3", r3)
